@@ -85,6 +85,9 @@ pub fn standard_runs(r: &mut Rng, n_async: usize) -> Vec<SolveOpts> {
 
 /// Pick a generator family by weight.
 pub fn pick_family(r: &mut Rng, fams: &[(&'static str, u64)]) -> (&'static str, GenCfg) {
+    // under slow interpreters only the small families are used
+    let small: Vec<(&'static str, u64)> = fams.iter().copied().filter(|f| f.0.starts_with("tiny") || f.0 == "hostile").collect();
+    let fams: &[(&'static str, u64)] = if crate::report::small() && !small.is_empty() { &small } else { fams };
     let total: u64 = fams.iter().map(|f| f.1).sum();
     let mut x = r.below(total);
     let mut name = fams[0].0;
